@@ -1,18 +1,24 @@
 #!/bin/sh
-# Build the framework from files on disk only (offline). Regenerates coq/gen from /repo and builds every .vo.
+# Build the framework from files on disk only (offline). Regenerates coq/gen from /repo and builds the .vo closure of
+# every claimed property (checks/cNN.py without a `disabled` reason).
 set -e
 cd "$(dirname "$0")"
 export GOFLAGS=-mod=mod GOPROXY=off GOSUMDB=off GOTOOLCHAIN=local
-timeout 3000 python3 -c "
+TARGETS=$(timeout 3000 python3 -c "
 import sys; sys.path.insert(0,'.')
 from vlib import core
 import importlib, glob, os
+targets = []
 for f in sorted(glob.glob('checks/c[0-9]*.py')):
     spec = importlib.import_module('checks.'+os.path.basename(f)[:-3]).SPEC
+    if spec.get('disabled'):
+        continue
     for g in spec.get('gens', []):
         ok, log = core.run_gen(g['name'], g['cmd'])
-        if not ok: print('gen failed', g['name'], log); sys.exit(1)
+        if not ok: sys.stderr.write('gen failed %s %s\n' % (g['name'], log)); sys.exit(1)
+    targets += spec.get('coq_targets', ['props/%s.vo' % spec['prop']]) + spec.get('model_targets', [])
 core.coq_project()
-"
-cd coq && timeout 3400 make -j16 >/dev/null 2>../.setup-make.log || { tail -50 ../.setup-make.log; exit 1; }
+print(' '.join(sorted(set(targets))))
+")
+cd coq && timeout 3400 make -j16 $TARGETS >/dev/null 2>../.setup-make.log || { tail -50 ../.setup-make.log; exit 1; }
 echo setup ok
